@@ -17,7 +17,7 @@ ASSUMPTIONS = [
 ]
 BOUNDS = {"quick": "6 URI modes + 4 realm patterns + custom-attribute pattern: language inclusion both ways vs the WAMP grammar, witnesses <= 12 chars; ids over -2^64..2^64; 25 classes x every list position x every option key x 17 replacement values; envelope: 9 structures x free type code; codec raising 6 exception types x 4 serializers",
           "thorough": "witness length <= 20; two simultaneous mutations for id/URI slots"}
-EXPECT_COVERS = ["uri:code-subset-of-spec", "uri:spec-subset-of-code", "uri:dispatch", "id:range", "parse:accepted", "parse:ProtocolError", "envelope", "codec-raises"]
+EXPECT_COVERS = ["typecode:accepted", "typecode:rejected", "uri:code-subset-of-spec", "uri:spec-subset-of-code", "uri:dispatch", "id:range", "parse:accepted", "parse:ProtocolError", "envelope", "codec-raises"]
 BUDGET = {"quick": dict(wall_s=300, max_paths=20000, diff_samples=2), "thorough": dict(wall_s=2400, diff_samples=2)}
 
 MODES = {  # (strict, allow_empty_components, allow_last_empty) -> pattern attribute
@@ -158,11 +158,14 @@ def _menu(sx, tag):
             {}, {"a": 1}, {1: 2}]
 
 
-def mutate(sx, cname, slot):
-    """each list position / option key of a valid message replaced by a value of every type: valid message or ProtocolError/InvalidUriError"""
+def mutate(sx, cname, slot, shape="full"):
+    """each list position / option key of a valid message replaced by a value of every type: valid message or ProtocolError/InvalidUriError.
+    Base message shapes: every option present ("full"), no option ("min"), positional arguments only ("args"), the encrypted-payload form ("pt")"""
     from autobahn.wamp.exception import ProtocolError, InvalidUriError
     cls = msglib.classes()[cname]
-    opts = [p for p in msglib.optional_params(cls) if p not in msglib.PT]
+    allopts = msglib.optional_params(cls)
+    opts = {"full": [p for p in allopts if p not in msglib.PT], "min": [], "args": [p for p in allopts if p == "args"],
+            "pt": [p for p in allopts if p in ("payload", "enc_algo", "enc_key", "enc_serializer")]}[shape]
     m, kw = msglib.build(msglib_conc(), cname, opts)
     base = m.marshal()
     n = len(base)
@@ -196,7 +199,7 @@ def mutate(sx, cname, slot):
                 wire = wire[:-1] if len(REQ_LEN.get(cname, ())) == 0 else wire[:min(REQ_LEN[cname]) - 1]
             else:
                 wire = wire[:1]
-            info = dict(cls=cname, kind=kind, where=repr(where), value=repr(v)[:40])
+            info = dict(cls=cname, kind=kind, where=repr(where), value=repr(v)[:40], shape=shape)
             try:
                 m2 = cls.parse(wire)
             except (ProtocolError, InvalidUriError):
@@ -372,6 +375,45 @@ def envelope(sx, ser_id):
     return [ser_id]
 
 
+def typecode(sx, ser_id):
+    """a VALID body of every message class behind a first element that is not the integer type code: values that compare equal to it
+    (True == 1, 1.0 == 1), other types, unknown integers.  Accepted => the first element is an int, a known code, and re-marshals as itself"""
+    from autobahn.wamp.exception import ProtocolError, InvalidUriError
+    from autobahn.wamp import serializer as ser
+    from .c03 import _serializer
+    s = _serializer(ser_id, False)
+    if s is None:
+        return ["missing"]
+    known = sorted(ser.Serializer.MESSAGE_TYPE_MAP)
+    free = sx.int("code", -2 ** 31, 2 ** 31)
+    for cname in sorted(msglib.classes()):
+        m, kw = msglib.build(msglib_conc(), cname, [])
+        base = m.marshal()
+        code = base[0]
+        for v in (bool(code) if code in (0, 1) else None, True, False, float(code), str(code), None, [code], {"t": code}, -code, code + 1000, free):
+            st = [v] + list(base[1:])
+            s._serializer.unserialize = lambda payload, st=st: [st]
+            info = dict(cls=cname, first=repr(v)[:20], type=type(v).__name__)
+            try:
+                out = s.unserialize(b"whatever", ser_id != "json")
+            except (ProtocolError, InvalidUriError):
+                sx.cover("typecode:rejected")
+                continue
+            except Exception as e:  # noqa
+                # a foreign body behind a known code can run into that class's recorded validation gaps (string at the args position)
+                kn = [("C08-unvalidated:Result[3]", v == 50), ("C08-unvalidated:Publish[4]", v == 16), ("C08-unvalidated:Call[4]", v == 48)] if sx.is_sym(v) else []
+                sx.fail("unserialize-raises-something-else-than-ProtocolError", info=dict(info, exc="%s: %s" % (type(e).__name__, e)), known=kn)
+                continue
+            if sx.is_sym(v):
+                # a free integer in front of this class's body: accepted only as a known code (the body then happens to fit that class)
+                sx.check(sx.Or(*[v == k for k in known]), "accepted-type-code-is-a-known-one", info=info)
+            else:
+                sx.check(type(v) is int and v in known, "non-integer-or-unknown-type-code-accepted", info=info)
+            sx.check(len(out) == 1 and out[0].marshal()[0] == v and type(out[0].marshal()[0]) is int, "type-code-re-marshals-as-itself", info=info)
+            sx.cover("typecode:accepted")
+    return [ser_id]
+
+
 def real_bytes(sx, ser_id, which):
     """a few arbitrary / mutated octet strings through the real codec (concrete; the C codecs themselves are not encoded)"""
     from autobahn.wamp.exception import ProtocolError
@@ -408,10 +450,17 @@ def units(tier):
     for cname in sorted(msglib.classes()):
         for slot in ("positions", "options"):
             U.append(("mut/%s/%s" % (cname, slot), "mutate", dict(cname=cname, slot=slot), dict(weight=3)))
+        allopts = msglib.optional_params(msglib.classes()[cname])
+        for shape in ("min", "args", "pt"):
+            if shape == "args" and "args" not in allopts or shape == "pt" and "payload" not in allopts:
+                continue
+            for slot in ("positions", "options") if shape == "pt" else ("positions",):
+                U.append(("mut/%s/%s/%s" % (cname, slot, shape), "mutate", dict(cname=cname, slot=slot, shape=shape), dict(weight=2)))
     for cname in ("Hello", "Welcome"):
         U.append(("roles/" + cname, "roles", dict(cname=cname), dict(weight=3)))
     for ser_id in ("json", "msgpack", "cbor", "ubjson"):
         U.append(("env/" + ser_id, "envelope", dict(ser_id=ser_id)))
+        U.append(("typecode/" + ser_id, "typecode", dict(ser_id=ser_id), dict(weight=4)))
         for w in ("empty", "garbage", "truncated", "flipped", "nested", "scalar"):
             U.append(("bytes/%s/%s" % (ser_id, w), "real_bytes", dict(ser_id=ser_id, which=w)))
     return U
